@@ -70,6 +70,10 @@ pub struct RuntimeStats<W, R, T> {
     pub(crate) timeout: Option<Instant>,
     pub(crate) rng: Option<R>,
     pub stdout: W,
+    #[cfg(feature = "verif")]
+    pub(crate) verif_alloc_trace: Option<Vec<usize>>,
+    #[cfg(feature = "verif")]
+    pub(crate) verif_peak: usize,
 
     _t: PhantomData<T>,
 }
@@ -82,6 +86,10 @@ impl<W, R, T> RuntimeStats<W, R, T> {
             timeout: None,
             rng: None,
             stdout,
+            #[cfg(feature = "verif")]
+            verif_alloc_trace: None,
+            #[cfg(feature = "verif")]
+            verif_peak: 0,
             _t: PhantomData,
         };
         ret.reset_timeout(time_limit);
@@ -170,6 +178,16 @@ impl<W, R, T> Runtime<W, R, T> {
             let size = value.byte_size();
             let mut stats = self.stats.borrow_mut();
             stats.size += size;
+            #[cfg(feature = "verif")]
+            {
+                let total = usize::from(stats.size);
+                if total > stats.verif_peak {
+                    stats.verif_peak = total;
+                }
+                if let Some(trace) = stats.verif_alloc_trace.as_mut() {
+                    trace.push(total);
+                }
+            }
             if VERBOSE_ALLOC {
                 println!(
                     "Allocated {size} bytes (total {}) for {value:?}",
